@@ -1529,7 +1529,7 @@ PROPS = {
                 explanation="PARTIAL. Proved: under every interleaving of whole operations each thread's results and final private state equal "
                             "its solo run and shared const objects never change (Proofs_Threads.v); the inventory of constructs that could "
                             "introduce shared mutable state, regenerated from the headers on every run, is fully classified "
-                            "(Proofs_Sites.shared_inventory_safe). Not provable in the model: absence of data races inside one operation "
+                            "(Proofs_Shared.shared_inventory_safe). Not provable in the model: absence of data races inside one operation "
                             "(memory model, reference counting) - ThreadSanitizer can only find races, never exclude them."),
     'C19': _p(gen_C19, nontrivial_hist,
               "a cross-section of every check's cases (histories, expression catalogue, forms, generator, interpolation, evaluation) "
